@@ -273,12 +273,24 @@ fn build_stream(case: &CaseSpec, feats: LazyParser) -> LocalBoxStream<'static, I
             start(r.before(world::before_hook).after(world::after_hook), feats, cli)
         }
         (true, false, false) => start(r.which_scenario(custom_which), feats, cli),
+        (true, true, false) if case.sched_seed % 2 == 0 => {
+            start(r.before(world::before_hook).which_scenario(custom_which), feats, cli)
+        }
         (true, true, false) => {
             start(r.which_scenario(custom_which).before(world::before_hook), feats, cli)
+        }
+        (true, false, true) if case.sched_seed % 2 == 0 => {
+            start(r.after(world::after_hook).which_scenario(custom_which), feats, cli)
         }
         (true, false, true) => {
             start(r.which_scenario(custom_which).after(world::after_hook), feats, cli)
         }
+        // the builder methods commute: half of the cases call them in the other order
+        (true, true, true) if case.sched_seed % 2 == 0 => start(
+            r.before(world::before_hook).after(world::after_hook).which_scenario(custom_which),
+            feats,
+            cli,
+        ),
         (true, true, true) => start(
             r.which_scenario(custom_which).before(world::before_hook).after(world::after_hook),
             feats,
